@@ -632,7 +632,86 @@ def r14_6(ctx, prog, crate):
     ctx.anchor("R14.6", "distinct (parent emptiness, content) cases at the reads", n, 2)
 
 
+def cli_action_table(ctx, rule, prog, crate):
+    """The action the command line asks for: on every path of config_with_args from the `--list` test to the store into
+    self.action, the stored variant is the documented function of the flags: --list gives List (ListTerse exactly when
+    `--format terse` was given), otherwise --test or the absence of --bench gives Test, otherwise Bench."""
+    from lib.facts import place_fields
+    from lib.patheval import PathEval
+    import itertools
+    b = prog.body("divan::Divan::config_with_args", crate)
+    if not ctx.anchor(rule, "Divan::config_with_args", 1 if b else 0, 1):
+        return
+    ctx.saw(b)
+    asg = [(bi, s) for bi, si, s in b.stmts() if s["k"] == "assign" and s["p"]["l"] == 1 and place_fields(s["p"]) == ("action",)]
+    if not ctx.check(len(asg) == 1 and asg[0][1]["rv"]["k"] == "use" and asg[0][1]["rv"]["o"]["k"] in ("move", "copy"), rule, ["cli-action", "one-store"],
+                     "stores into self.action in config_with_args: %d" % len(asg), b.where(0)):
+        return
+    T = asg[0][1]["rv"]["o"]["p"]["l"]
+    defs = [bi for bi, si, s in b.stmts() if s["k"] == "assign" and s["p"]["l"] == T and not s["p"]["proj"]]
+    gf = [c for c in b.live_calls() if c.callee == "clap::ArgMatches::get_flag" and all(b.dominates(c.bb, bi) for bi in defs)]
+    if not ctx.check(bool(gf) and bool(defs), rule, ["cli-action", "decided-by-flags"], "no flag test dominates the choice of the action", b.where(asg[0][0])):
+        return
+    # the earliest flag test from which the whole decision is visible: the outermost one that every def is control-dependent on
+    cands = sorted(gf, key=lambda c: sum(1 for z in range(len(b.blocks)) if b.dominates(z, c.bb)))
+    sums = None
+    for start in reversed(cands):
+        sums = PathEval(b, max_paths=4000).run(start=start.bb, stop_at={asg[0][0]})
+        if sums and any(a[0] == "bool" and a[1][0] == "site" and a[1][1] == "clap::ArgMatches::get_flag" and a[1][3][1] == ("opaque", 'const:"list"') for s in sums for a, p in s.conds):
+            break
+    if not ctx.check(bool(sums), rule, ["cli-action", "paths"], "cannot enumerate the paths that choose the action", b.where(asg[0][0])):
+        return
+
+    def doc(v):
+        if v["list"]:
+            return "ListTerse" if v["terse"] else "List"
+        return "Test" if (v["test"] or not v["bench"]) else "Bench"
+    n = 0
+    for s in sums:
+        val = {}
+        unknown = []
+        for a, p in s.conds:
+            if a[0] == "bool" and a[1][0] == "site" and a[1][1] == "clap::ArgMatches::get_flag":
+                nm = a[1][3][1][1] if a[1][3][1][0] == "opaque" else "?"
+                nm = nm[len('const:"'):-1] if nm.startswith('const:"') else nm
+                if nm in ("list", "test", "bench"):
+                    val[nm] = p
+                else:
+                    unknown.append(nm)
+            elif a[0] == "bool" and a[1][0] == "site" and any(c[0] == "clap::ArgMatches::try_get_one" and c[1][1] == ("opaque", 'const:"format"') for c in s.calls):
+                val["terse"] = p
+            else:
+                unknown.append(str(a)[:60])
+        got = s.env.get(T) if hasattr(s, "env") else None
+        gv = got[2] if got and got[0] == "adt" else None
+        n += 1
+        free = [k for k in ("list", "test", "bench", "terse") if k not in val]
+        bad = []
+        for combo in itertools.product([False, True], repeat=len(free)):
+            v = dict(val, **dict(zip(free, combo)))
+            if not v["list"] and "terse" in free and v["terse"]:
+                continue        # --format requires --list (clap), and the terse flag is only read under --list
+            if doc(v) != gv:
+                bad.append((v, doc(v)))
+        key = ",".join("%s=%s" % (k, "1" if val[k] else "0") for k in sorted(val))
+        ctx.check(not unknown and not bad and gv is not None, rule, ["cli-action", key or "unconditional", "documented-action"],
+                  "with %s config_with_args stores Action::%s%s%s" % (key or "no flag tested", gv, "; documented: %s for %s" % (bad[0][1], bad[0][0]) if bad else "",
+                                                                       "; the choice also depends on %s" % unknown if unknown else ""), b.where(s.blocks[-2] if len(s.blocks) > 1 else s.blocks[-1]))
+    ctx.anchor(rule, "paths choosing the CLI action", n, 4)
+    # the terse test compares the `format` value with "terse"
+    cl = [x for x in prog.children(b) if x.kind == "Closure" and any(c.callee.rsplit("::", 1)[-1] in ("eq", "ne") for c in x.live_calls())]
+    terse = [x for x in cl for bi, si, s in x.stmts(live_only=False) if s["k"] == "assign" and s["rv"]["k"] == "use" and s["rv"]["o"]["k"] == "const" and "\"terse\"" in str(s["rv"]["o"]["c"].get("d", ""))] + \
+        [x for x in cl for (ck, pth, pr), pb in prog.bodies.items() if ck == crate and pth == x.path and pr >= 0 for bi, si, s in pb.stmts(live_only=False)
+         if s["k"] == "assign" and "terse" in str(s["rv"])]
+    ctx.check(bool(terse), rule, ["cli-action", "terse-means-format-terse"], "no closure of config_with_args compares the format value with \"terse\"", b.where(0))
+
+
+def r14_7(ctx, prog, crate):
+    cli_action_table(ctx, "R14.7", prog, crate)
+
+
 def run(ctx, prog, crate):
+    r14_7(ctx, prog, crate)
     r14_6(ctx, prog, crate)
     r14_5(ctx, prog, crate)
     r14_1(ctx, prog, crate)
